@@ -148,5 +148,13 @@ META["C08"] = {
     "note": "Multiplicity of unconditional additions is checked at run time (sorted lists compared), not proved. Runtime data races are the race detector's business (thorough tier).",
 }
 
+META["C15"] = {
+    "category": "translation_validation",
+    "design_ref": "DESIGN.md section 5 / C15",
+    "technique": "regeneration + Lean 4: astool is rebuilt and re-run on every check; its output is compared byte for byte across fresh runs and with the shipped package; for sampled extension vocabularies the emitted code is compiled, re-read by the translators, and the kernel-checked (decide +kernel) table theorems of C12/C13/C14 are re-proved on the regenerated tables",
+    "text": "Not a theorem about astool: no executable model of the generator exists here, so 'for any well-formed extension' is decided per sampled extension (each sample's tables are proved, not tested, to satisfy C12/C13/C14). Determinism and reproduction of the shipped tree are decided by execution and comparison.",
+    "note": "The universally quantified clause over all extensions is out of reach of this technique without modelling the generator; said so in DESIGN.md. C01 for extensions is not covered.",
+}
+
 _ALL = ["C%02d" % i for i in range(1, 21)]
 NOT_APPLICABLE = [{"property_id": p, "reason": PENDING} for p in _ALL if p not in META]
